@@ -525,10 +525,12 @@ def strload(val: str | bytes | bytearray | memoryview) -> PythonValueT:
 
 @compat.lru_cache(maxsize=100_000)
 def _strload(val: str | bytes | bytearray | memoryview) -> PythonValueT:
-    with contextlib.suppress(ValueError):
-        return compat.json.loads(val)
-
+    # Every carrier is read as the same text: handed bytes, the stdlib decoder (our
+    #   fallback without `orjson`) would sniff a BOM or UTF-16/32 which text doesn't have.
     decoded = decode(val)
+    with contextlib.suppress(ValueError):
+        return compat.json.loads(decoded)
+
     with contextlib.suppress(ValueError, TypeError, SyntaxError):
         return ast.literal_eval(decoded)
 
